@@ -28,8 +28,8 @@
        had no documented reason to look again - Converged(kernel, desired);
      - a write made with accurate knowledge does not touch a non-empty chain that already holds
        its target content as rendered by Felix itself (minimality);
-     - an Apply only fails when the environment made a command fail, and Felix never issues a
-       command the kernel rejects while its knowledge is accurate.                              *)
+     - an Apply only fails when the environment made a command fail (a command that the kernel
+       rejects on its merits excuses nothing: neither a failed Apply nor a non-minimal rewrite). *)
 EXTENDS Naturals, Sequences, FiniteSets, TLC
 
 CONSTANTS OurChains            \* chain names owned by Felix by name (configured prefixes)
@@ -175,9 +175,10 @@ Write(ok, injected, k, touched) ==
               /\ kernel' = k
               /\ UNCHANGED <<belief, phase>>
          ELSE /\ k = kernel                                 \* a rejected command changes nothing
-              /\ injected \/ belief.stale                    \* never an invalid command from accurate knowledge
               /\ belief' = [belief EXCEPT !.due = TRUE]
-              /\ phase' = [phase EXCEPT !.envFail = TRUE]
+              \* only a failure made by the environment excuses anything later in this Apply; a
+              \* command the kernel rejects on its merits is Felix's own doing
+              /\ phase' = IF injected THEN [phase EXCEPT !.envFail = TRUE] ELSE phase
               /\ kernel' = kernel
     /\ UNCHANGED <<cfg, desired, known>>
 ConvergenceDue == ~belief.stale \/ (belief.due /\ ~phase.readFailed)
